@@ -850,9 +850,12 @@ impl Compactor {
     async fn garbage_collect(&self) -> Result<()> {
         let gc_start = std::time::Instant::now();
         let now = chrono::Utc::now();
-        let grace_period = chrono::Duration::from_std(self.config.gc_grace_period)
-            .unwrap_or_else(|_| chrono::Duration::seconds(300));
-        let cutoff = now - grace_period;
+        // A grace period beyond what the date arithmetic can represent means "never collect":
+        // nothing is old enough then (it used to fall back to 300 s).
+        let cutoff = chrono::Duration::from_std(self.config.gc_grace_period)
+            .ok()
+            .and_then(|grace_period| now.checked_sub_signed(grace_period))
+            .unwrap_or(chrono::DateTime::<chrono::Utc>::MIN_UTC);
 
         // Process pending deletions that have passed grace period
         let chunks_to_delete: Vec<String> = {
